@@ -271,7 +271,7 @@ PROPS = {
                      "a connection's Closed() channel stays closed once closed"],
     ),
     "C02": dict(
-        modules=['Drpc.Props.C02', 'Drpc.Props.Manager', 'Drpc.Props.Request', 'Drpc.Tie.Manager', 'Drpc.Tie.C11'],
+        modules=['Drpc.Props.C02', 'Drpc.Props.Manager', 'Drpc.Props.ManagerSys', 'Drpc.Props.Request', 'Drpc.Tie.Manager', 'Drpc.Tie.C11'],
         suites=['e2e', 'meta'],
         rule="meta suite, scoping families: raw frame sequences (metadata for own / other / abandoned ids, repeated, undecodable) written to a real server-side Manager, the (rpc, id, metadata) each handler sees compared with Drpc.Metadata.newServerStream. e2e suite, families delivery+probe: sequences of 1-4 RPCs of all shapes on one connection (real drpcconn.Conn and drpcserver.ServeOne over the director's pipe, 8 configurations, flowing or randomly chunked transport), every payload tagged with (rpc, direction, sequence, length, crc) so that a message delivered to another RPC is recognised; earlier RPCs ended by close or cancel at various points (probe family) before the next begins. Counted: scenarios (#STATS distribution); oracles C02:isolation",
         trusted=COMMON_TRUST + ["Go runtime (goroutines, sync, channels) trusted; the two-endpoint behaviour is explored, not modelled: "
@@ -291,7 +291,7 @@ PROPS = {
         assumptions=['judged at quiescence with no transport action pending'],
     ),
     "C06": dict(
-        modules=['Drpc.Props.C06', 'Drpc.Props.Manager', 'Drpc.Tie.Manager'],
+        modules=['Drpc.Props.C06', 'Drpc.Props.Manager', 'Drpc.Props.ManagerSys', 'Drpc.Tie.Manager'],
         suites=['e2e'],
         rule='e2e suite, family probe: 1-2 streaming RPCs over the grid {11 handler programs (return without draining, error without draining, read one, read all, send without reading, wait for cancel, close-send then error, large response ...)} x {0,1,3 client sends} x {half-close or not} x {0,1,5 receives} x {close, cancel} x {soft, hard cancel}, then a probe unary RPC that must complete at quiescence unless the connection reports itself closed',
         trusted=COMMON_TRUST + ["Go runtime (goroutines, sync, channels) trusted; the two-endpoint behaviour is explored, not modelled: "
@@ -301,7 +301,7 @@ PROPS = {
         assumptions=['the transport keeps moving bytes (flow mode) while the probe runs'],
     ),
     "C12": dict(
-        modules=['Drpc.Props.C12', 'Drpc.Props.Manager', 'Drpc.Props.Serve', 'Drpc.Tie.Manager'],
+        modules=['Drpc.Props.C12', 'Drpc.Props.Manager', 'Drpc.Props.ManagerSys', 'Drpc.Props.Serve', 'Drpc.Tie.Manager'],
         suites=['e2e'],
         rule='e2e suite, families close+fault: random workloads of 1-2 RPCs driven over a manually stepped transport; at transport step k (every k in the thorough tier, a sample in quick) Conn.Close / server context cancellation / an external transport break is issued; after the transport lets go: Close has returned, the transport end was closed exactly once by the library, every call has returned, no goroutine with a storj.io/drpc frame is left',
         trusted=COMMON_TRUST + ["Go runtime (goroutines, sync, channels) trusted; the two-endpoint behaviour is explored, not modelled: "
@@ -382,7 +382,7 @@ PROPS = {
         assumptions=[],
     ),
     "C07": dict(
-        modules=["Drpc.Props.C07", "Drpc.Props.Manager", "Drpc.Tie.C03", "Drpc.Tie.Manager"],
+        modules=["Drpc.Props.C07", "Drpc.Props.Manager", "Drpc.Props.ManagerSys", "Drpc.Tie.C03", "Drpc.Tie.Manager"],
         suites=["stream", "e2e"],
         rule="stream suite: every completed transport write of a real Stream (sequential and parked histories incl. parked Marshal, "
              "failing writes, concurrent terminal calls) is parsed by the independent Go reference parser: whole frames, ids "
